@@ -557,7 +557,7 @@ def order_stream(ck, rep, formats, exts, drift):
     for st in stems:
         for e in exts + [".dat", ".txt", ".CIF", ".Xyz", ""]:
             names.append(st + e)
-    for _ in range(60 if ck.tier == "quick" else 600):
+    for _ in range((60 * getattr(ck, "widen", 1)) if ck.tier == "quick" else 600):
         n = rng.randint(1, 10)
         names.append("".join(rng.choice("abx./ *?-_" + "cifstruxyzpdbeg") for _ in range(n)))
     lines = ["auto.order gen %s" % ("-" if n is None else hx(n)) for n in names]
@@ -587,7 +587,7 @@ def order_stream(ck, rep, formats, exts, drift):
     ck.coverage["distinct_nontrivial"] += nd
     # fnmatch itself
     pats, nms = [], []
-    for _ in range(300 if ck.tier == "quick" else 3000):
+    for _ in range((300 * getattr(ck, "widen", 1)) if ck.tier == "quick" else 3000):
         pats.append("".join(rng.choice("ab.*?x") for _ in range(rng.randint(0, 6))))
         nms.append("".join(rng.choice("ab.x") for _ in range(rng.randint(0, 7))))
     out = common.driver(["auto.fnmatch %s %s" % (hx(n), hx(p)) for n, p in zip(nms, pats)])
@@ -738,7 +738,7 @@ def probe_stream(ck, drift):
     pr = _Probe()
     excs = probe_exceptions()
     excmap = {c.__name__: c for c in excs}
-    ncase = 400 if ck.tier == "quick" else 4000
+    ncase = (400 * getattr(ck, "widen", 1)) if ck.tier == "quick" else 4000
     fmts_pool = ["va", "vb", "vc", "vd", "ve", "vf", "Zz", "aa"]
     pat_pool = ["*.va", "*.vb|*.vx", "*.vc", "*", "*.*", "?.vd", "data*", "*.ve|*.va", "x*.v?", "*.vf|*|*.q", "", "*.", "lit.va"]
     fn_pool = [None, "", "x.va", "x.vb", "x.vx", "d/x.vc", "x.vd", "data1", "x.ve", "xx.vf", "a.q", "noext", "x.va.vb", "lit.va", "x.", "d.va/x"]
@@ -1071,12 +1071,52 @@ def replay_dict(c, path, matrix, got, model):
 
 # ---- the check --------------------------------------------------------------------------
 
+# DS.Props.SrcLoad serves three properties; each check answers for the theorems about the code its property speaks of
+TIE_C12 = {"inputFormats_eq", "outputFormats_eq", "getParser_eq", "sp_parse_eq", "sp_tostring_eq", "sp_parseFile_eq", "foldlM_ok",
+           "anymatch_truthy", "order_step", "getOrderedFormats_eq", "wrapLoop_eq", "wrapParseMethod_eq", "auto_parse_eq", "auto_parseFile_eq",
+           "auto_constants", "auto_clauses", "auto_outside", "loadStructure_eq"}
+TIE_C16 = {"structure_read_eq", "structure_readStr_eq", "pdffit_post", "read_eq", "readStr_eq", "write_eq", "write_facts", "writeStr_eq",
+           "write_saves_writeStr"}
+TIE_C20 = {"optLoop_eq", "main_eq", "main_handlers", "main_formats", "usage_version_eq"}
+
+
+def tie_scope(tie_ok, tie_info, mine):
+    """restrict a broken tie of the shared module to the theorems of this property: theorems that broke only in another
+    property's part (e.g. a change of transtru.py seen from C16) are that check's business"""
+    if tie_ok:
+        return tie_ok, tie_info
+    broken = set(tie_info.get("broken_theorems") or [])
+    if broken and broken <= (TIE_C12 | TIE_C16 | TIE_C20) and not (broken & mine):
+        tie_info["broken_elsewhere"] = sorted(broken)
+        return True, tie_info
+    if broken & mine:
+        tie_info["broken_theorems"] = sorted(broken & mine)
+    return False, tie_info
+
+
+def replay_tie(pid, mine):
+    """a `source-tie` record: regenerate the transliteration from the tree under examination and re-check the theorems of
+    this property; 1 iff the model still differs from that source"""
+    sys.path.insert(0, VERIF)
+    from translate import registry
+
+    registry.main(GEN, os.path.join(GEN, "registry_report.json"))
+    ck = common.Check(pid, "quick", 0)
+    ok, info = tie_scope(*ck.source_tie("DS.Props.SrcLoad", groups=("load",)), mine)
+    unt = {k: v["untranslatable"] for k, v in info.get("translator", {}).items() if isinstance(v, dict) and v.get("untranslatable")}
+    print("source tie DS.Props.SrcLoad:", "holds" if ok else "broken: theorems %r, not translatable %r" % (info.get("broken_theorems"), unt))
+    return 0 if ok else 1
+
+
 def run(ck):
     sys.path.insert(0, VERIF)
     from translate import registry
 
     rep = registry.main(GEN, os.path.join(GEN, "registry_report.json"))
     ok, info = ck.lean_obligations("DS.Props.C12")
+    # `orderFor`, `auto` and the entry points ARE the current source of p_auto.py (transliterated by translate/src_load.py)
+    tie_ok, tie_info = tie_scope(*ck.source_tie("DS.Props.SrcLoad", groups=("load",)), TIE_C12)
+    ck.widen = 1 if tie_ok else 4      # a broken tie: four times as many order / fnmatch / scripted-registry cases
     ck.coverage["rule"] = (
         "order: generated file names (every registered extension x stems, case/dot/dir variants, random) -> _getOrderedFormats vs model; "
         "probe: random scripted registries (0-6 formats, patterns incl. '*', '*.*', '?', multi-pattern) x outcome vectors over "
@@ -1188,12 +1228,16 @@ def run(ck):
     if shape_off and not ck.violations:
         ck.fail("shape:_wrapParseMethod", "P_auto._wrapParseMethod no longer has the shape the model mirrors: %r (no behavioural difference found by the "
                 "probe stream)" % shape_off, {"kind": "translator-shape", "flags": flags, "theorem": "DS.Load.autoLoop"}, no_failing_input=True)
+    ck.tie_verdict(tie_ok, tie_info, "parsers/p_auto.py, parsers/__init__.py (_getOrderedFormats, _wrapParseMethod, parse/parseLines/parseFile, "
+                   "inputFormats) and the callers in structure.py / __init__.py")
     if not ok and not ck.violations:
         ck.fail("lean-build", "Lean obligations of C12 no longer check: %r" % (info["failed_modules"],),
                 {"kind": "proof-obligation", "theorem": info["failed_modules"], "errors": info["errors"], "log": info.get("log_tail", "")},
                 no_failing_input=True)
     ck.coverage["samples"] = samples[:4]
-    ck.coverage["trusted_base"] += ["translate/registry.py (registry dump, ast reading of the except clauses and message constants of p_auto.py)",
+    ck.coverage["trusted_base"] += ["translate/src_load.py (symbolic execution of _getOrderedFormats / _wrapParseMethod / the entry points; "
+                                    "DS.Props.SrcLoad identifies the result with DS.Load.orderFor / DS.Load.auto)",
+                                    "translate/registry.py (registry dump, ast reading of the except clauses and message constants of p_auto.py)",
                                     "harness/c12.py probe: fake parsers registered in the in-process parser_index (restored afterwards)"]
     ck.assumptions += [
         "the per-format parsers are a parameter of the model (their behaviour on each text is observed, not modelled: C13)",
@@ -1216,6 +1260,8 @@ def replay(path):
     kind = r.get("kind")
     want = r.get("key", "")
     col = Collector("C12")
+    if kind == "source-tie":
+        return replay_tie("C12", TIE_C12)
     if kind == "names":
         tmp = tempfile.mkdtemp(prefix="verif_c12_replay_")
         try:
